@@ -150,10 +150,18 @@ def lookupSeg (cs : List (Bytes × Node)) (k : Bytes) : Option Node :=
   | [] => none
   | (k', v) :: rest => if k' == k then some v else lookupSeg rest k
 
-def upsertSeg (cs : List (Bytes × Node)) (k : Bytes) (v : Node) : List (Bytes × Node) :=
+/-- Go maps (`p.segments`, `p.methods`) have no order: they are kept as association lists
+sorted by key (Go's bytewise string order), a canonical form — lookups are by key only, and
+`delRule`'s theorems quantify over all lists. Insert-or-replace. -/
+def upsertKV {α : Type} (cs : List (Bytes × α)) (k : Bytes) (v : α) : List (Bytes × α) :=
   match cs with
   | [] => [(k, v)]
-  | (k', v') :: rest => if k' == k then (k, v) :: rest else (k', v') :: upsertSeg rest k v
+  | (k', v') :: rest =>
+    if k' == k then (k, v) :: rest
+    else if bytesLt k k' then (k, v) :: (k', v') :: rest
+    else (k', v') :: upsertKV rest k v
+
+def upsertSeg (cs : List (Bytes × Node)) (k : Bytes) (v : Node) : List (Bytes × Node) := upsertKV cs k v
 
 def lookupVar (vs : List (Var × Node)) (name : Bytes) : Option (Var × Node) :=
   match vs with
@@ -170,10 +178,7 @@ def upsertVar (vs : List (Var × Node)) (v : Var) (n : Node) : List (Var × Node
     else if bytesLt v.name v'.name then (v, n) :: (v', n') :: rest
     else (v', n') :: upsertVar rest v n
 
-def upsertMeth (ms : List (Bytes × Meth)) (k : Bytes) (m : Meth) : List (Bytes × Meth) :=
-  match ms with
-  | [] => [(k, m)]
-  | (k', m') :: rest => if k' == k then (k, m) :: rest else (k', m') :: upsertMeth rest k m
+def upsertMeth (ms : List (Bytes × Meth)) (k : Bytes) (m : Meth) : List (Bytes × Meth) := upsertKV ms k m
 
 def starVerb : Bytes := [42]
 
